@@ -38,10 +38,13 @@ PROGS = {
     "two-requested": dict(terms=[["neg", A], ["T", ["neg", A]]]),
     "concat": dict(terms=[["concat0", ["neg", A], ["slice1", B]]]),
     "cumsum": dict(terms=[["cumsum0", ["neg", Z]]]),
+    # store into an existing, completely pre-filled target (its chunks are all present before anything ran)
+    "store-existing": dict(terms=[["neg", A]], store="existing"),
+    "store-existing-chain": dict(terms=[["neg", ["T", ["neg", A]]]], store="existing"),
     # every chunk of the intermediate is all fill value: 'all chunks present' must still mean 'fully computed'
     "all-fill-chunks": dict(terms=[["neg", ["T", ["sub", A, A]]]]),
 }
-QUICK = ["chain", "diamond", "reduction-sum", "reduction-structured", "multi-output", "rechunk-multichunk", "zero-d", "store-new", "all-fill-chunks"]
+QUICK = ["chain", "diamond", "reduction-sum", "reduction-structured", "multi-output", "rechunk-multichunk", "zero-d", "store-new", "all-fill-chunks", "store-existing"]
 
 
 class Prepared:
@@ -58,10 +61,17 @@ class Prepared:
         self.store_target = None
         if d.get("store"):
             self.store_target = self.world.store("tgt")
-            self.arrs = list(cubed.store(self.arrs, [self.store_target], compute=False))
+            tgt = self.store_target
+            if d["store"] == "existing":
+                import zarr
+                v = self.exp[0]
+                tgt = zarr.create_array(self.store_target, shape=v.shape, dtype="f8", chunks=self.arrs[0].chunksize)
+                tgt[...] = -999.0
+            self.arrs = list(cubed.store(self.arrs, [tgt], compute=False))
         self.optimize = optimize
         self.initial = self.world.snapshot()
         self.world.mutations.clear()
+        self.world.log.clear()
         w = self.world
         ex = ControlledExecutor(world=w, on_task=lambda n, i, ph: w.record("task-end", "-", f"{n}/{i}", n) if ph == "after" else None)
         self.clean = [np.asarray(x) for x in cubed.compute(*self.arrs, executor=ex, optimize_graph=optimize)]
@@ -159,11 +169,15 @@ class Prepared:
             ok = True
             zero_d = False
             anykey = False
+            user_target = False
             for o in outputs:
                 t = dag.nodes[o]["target"]
                 store = getattr(t, "store", None)
                 path = getattr(t, "path", None)
                 if not isinstance(t, LazyZarrArray):
+                    # a user-supplied existing array: its completeness says nothing about this computation, so the
+                    # skip rules are not applied to the op that writes it (it must simply end up with the right contents)
+                    user_target = True
                     store = t.store.store if hasattr(t, "store") and hasattr(t.store, "store") else getattr(t, "store", None)
                     path = getattr(t, "path", "") or ""
                 if len(t.shape) == 0:
@@ -180,7 +194,7 @@ class Prepared:
                         ok = False
                     if r is not None and r[0] & set(self.world.stores[label]._store_dict):
                         anykey = True
-            out[n] = (ok, zero_d, anykey and not ok)
+            out[n] = (ok, zero_d or user_target, anykey and not ok)
         return out
 
 
@@ -196,12 +210,12 @@ def run_program(item):
         states = list(p.crash_states(tier))
         for desc, muts in states:
             snap = p.state_after(muts)
-            for exname in ("controlled", "virtual"):
+            for exname in ("controlled", "virtual", "virtual-parallel"):
                 for resume_opt in ((optimize,) if tier == "quick" else (optimize, not optimize)):
                     p.world.restore(snap)
                     p.world.log.clear()
                     before_keys = {(label, k) for label, s in p.world.stores.items() for k in s._store_dict if is_chunk_key(k)}
-                    ex = ControlledExecutor(world=p.world) if exname == "controlled" else VirtualExecutor(p.world, overlay=False)
+                    ex = ControlledExecutor(world=p.world) if exname == "controlled" else VirtualExecutor(p.world, overlay=False, parallel=(exname == "virtual-parallel"))
                     stats["resumes"] += 1
                     err = None
                     try:
